@@ -89,7 +89,7 @@ impl Check for C09 {
         }
         // (the real pipeline goes through the standard library's relation wrapper; operations
         //  that run in circuits of their own are covered by the structure monitor only)
-        let own_circuit = ["ff.c25519", "ng.", "sp.", "vec."].iter().any(|p| s.inner.case.op.starts_with(p));
+        let own_circuit = ["ff.c25519", "ng.", "sp.", "vec"].iter().any(|p| s.inner.case.op.starts_with(p));
         if s.real && !own_circuit && ops::expected_admissible(&s.inner.case) {
             return real_pipeline(&s.inner.case, st);
         }
